@@ -5,7 +5,7 @@ from concurrent.futures import ThreadPoolExecutor
 
 from . import build, tlc
 
-DATA_MODULES = ["AES", "AesAead", "ChaChaPoly", "BigNat", "BigInt", "HpkeSha256", "HpkeData", "Keccak", "Sponges", "SpongesLongKat", "SHA256", "SHA512", "SHA1", "MD5", "MD4", "MD2", "RIPEMD160", "Words32", "BLAKE2b", "BLAKE2s", "HashAlgs", "CmacAny", "PKCS1", "CipherWords", "DES", "RC2", "Blowfish", "CAST", "RC4", "Salsa20", "ChaChaSeek", "BlockCipher", "ClassicModes", "DerDecoder", "DerDecoderKeyFiles", "Padding", "PemCodec", "ECGroup", "ECGroupKatOrderA", "ECGroupKatOrderB", "ECGroupKatOrderC", "ECGroupKatX25519", "ECGroupKatX448", "ECGroupKatX448Dh", "PKCS1Kat", "KeyFormats", "KeyFormatsKat", "GF2m", "KDF", "KDFBcryptKat", "KDFBcryptKat2", "KDFBcryptKat3", "KeyInvariants", "KeyInvariantsKat", "KeyInvariantsKatEc", "KeyInvariantsKatEd448"]
+DATA_MODULES = ["AES", "AesAead", "ChaChaPoly", "BigNat", "BigInt", "HpkeSha256", "HpkeData", "Keccak", "Sponges", "SpongesLongKat", "SHA256", "SHA512", "SHA1", "MD5", "MD4", "MD2", "RIPEMD160", "Words32", "BLAKE2b", "BLAKE2s", "HashAlgs", "CmacAny", "PKCS1", "CipherWords", "DES", "RC2", "Blowfish", "CAST", "RC4", "Salsa20", "ChaChaSeek", "BlockCipher", "ClassicModes", "DerDecoder", "DerDecoderKeyFiles", "Padding", "PemCodec", "ECGroup", "ECGroupKatOrderA", "ECGroupKatOrderB", "ECGroupKatOrderC", "ECGroupKatX25519", "ECGroupKatX448", "ECGroupKatX448Dh", "PKCS1Kat", "KeyFormats", "KeyFormatsKat", "GF2m", "KDF", "KDFBcryptKat", "KDFBcryptKat2", "KDFBcryptKat3", "KeyInvariants", "KeyInvariantsKat", "KeyInvariantsKatEc", "KeyInvariantsKatEd448", "Signatures", "SignaturesKat", "SignaturesKatEc", "SignaturesKatDsa", "SignaturesKatEd25519", "SignaturesKatEd448"]
 
 
 def main():
